@@ -992,8 +992,19 @@ def glue_greenback() -> None:
                 # The await_() was made from another greenlet nested inside
                 # the child (greenback tracks it separately, for interop with
                 # other greenlet-based systems): the child is suspended where
-                # it switched into that one, and the stack goes on there.
-                return (child_greenlet, resume_greenlet)
+                # it switched into that one, and the stack goes on there --
+                # through every greenlet in between, if the nesting is deeper
+                # than one (each is suspended where it switched into the next).
+                between = []
+                ancestor = getattr(resume_greenlet, "parent", None)
+                while ancestor is not None and ancestor is not child_greenlet:
+                    if getattr(ancestor, "gr_frame", None) is not None:
+                        between.append(ancestor)
+                    ancestor = getattr(ancestor, "parent", None)
+                if ancestor is None:
+                    # (not nested by parent links: only the two ends are known)
+                    between = []
+                return (child_greenlet, *reversed(between), resume_greenlet)
             return child_greenlet
         elif orig_coro is not None:  # pragma: no cover
             # No greenlet, so child is suspended at a regular await.
